@@ -282,6 +282,7 @@ type c20CrashExp struct {
 
 type c20Exp struct {
 	Mem, Load string // forms wire
+	Omem      string // memory after the completed operation (also for an X event)
 	Hist, Tmp *string
 	Lim       int
 	Steps     []string
@@ -307,7 +308,7 @@ func c20ParseReply(reply string, nEvents int) (mem0 string, evs []c20Exp) {
 	mem0 = strings.TrimPrefix(toks[1], "mem=")
 	for _, t := range toks[2:] {
 		f := c20Fields(t)
-		e := c20Exp{Mem: f["mem"], Load: f["load"], Hist: c20ParseContent(f["hist"]), Tmp: c20ParseContent(f["tmp"])}
+		e := c20Exp{Mem: f["mem"], Omem: f["omem"], Load: f["load"], Hist: c20ParseContent(f["hist"]), Tmp: c20ParseContent(f["tmp"])}
 		e.Lim, _ = strconv.Atoi(f["lim"])
 		if f["steps"] != "." {
 			e.Steps = strings.Split(f["steps"], ".")
@@ -409,6 +410,15 @@ func c20LoadContent(d c20Dir, content *string, limit int) (string, string) {
 	return c20FormsWire(c20HistForms(h)), msg
 }
 
+// c20Scribble overwrites the runes of a form that was handed to Add.
+func c20Scribble(rf repl.Form) {
+	for _, l := range rf {
+		for i := range l {
+			l[i] = '#'
+		}
+	}
+}
+
 // c20Apply runs one operation on the implementation, snapshotting the directory at every hook point.
 func c20Apply(d c20Dir, h *repl.History, op c20Op) (snaps []c20Snap, panicMsg string) {
 	if c20HaveHooks {
@@ -425,9 +435,17 @@ func c20Apply(d c20Dir, h *repl.History, op c20Op) (snaps []c20Snap, panicMsg st
 	}()
 	switch op.Kind {
 	case "A":
-		h.Add(c20ToRepl(op.Form))
+		rf := c20ToRepl(op.Form)
+		h.Add(rf)
+		c20Scribble(rf) // the caller (the editor) goes on changing its lines: the history must hold a copy
 	case "C":
-		h.Clear(op.A, op.B)
+		// (clear-history) calls Clear of the embedded Stash, History.Clear is the method of the type
+		// itself: both must do the same to memory and file
+		if (op.A+op.B)%2 == 0 {
+			h.Stash.Clear(op.A, op.B)
+		} else {
+			h.Clear(op.A, op.B)
+		}
 	case "L":
 		h.SetLimit(op.N)
 	}
@@ -527,7 +545,8 @@ type c20Stats struct {
 }
 
 type c20Problem struct {
-	at      int // index of the event at which the case failed (-1: the initial load)
+	vsModel bool // implementation and model disagree (never excused by a finding); otherwise the property itself fails
+	at      int  // index of the event at which the case failed (-1: the initial load)
 	sig     string
 	replay  map[string]any
 	noInput bool // disagreement only on bytes the property does not constrain
@@ -545,7 +564,11 @@ func c20RunHistoryCase(c *lib.Ctx, d c20Dir, cs c20Case, reply string, st *c20St
 		if i >= 0 {
 			evs = fmt.Sprintf("event %d: %s", i+1, cs.Events[i].show())
 		}
-		return &c20Problem{at: i, sig: fmt.Sprintf("%sop=%s step=%s aspect=%s", cell, kind, step, aspect),
+		vs, suffix := strings.HasPrefix(from, "model:"), ""
+		if vs {
+			suffix = " vs=model"
+		}
+		return &c20Problem{vsModel: vs, at: i, sig: fmt.Sprintf("%sop=%s step=%s aspect=%s%s", cell, kind, step, aspect, suffix),
 			replay: map[string]any{"input": cs.show(), "request": req, "at": evs, "observed": observed, "expected": expected,
 				"expected_from": from, "relies_on": []string{"SlipVerif.History.restart_equals_memory", "SlipVerif.History.crash_consistent"}}}
 	}
@@ -575,6 +598,7 @@ func c20RunHistoryCase(c *lib.Ctx, d c20Dir, cs c20Case, reply string, st *c20St
 		return problem(-1, "restart", "final", c20Aspect(c20HistForms(h), c20ParseForms(mem0), universe),
 			"loaded "+c20ShowForms(c20HistForms(h)), "loaded "+c20ShowForms(c20ParseForms(mem0)), "model:hist.run (Load of the initial file)")
 	}
+	knownHit := false // a listed finding was hit in this sweep cell: memory and file differ from here on
 	for i, ev := range cs.Events {
 		e := exps[i]
 		st.events++
@@ -607,7 +631,6 @@ func c20RunHistoryCase(c *lib.Ctx, d c20Dir, cs c20Case, reply string, st *c20St
 			st.compactions++
 		}
 		before := c20HistForms(h)
-		beforeW := c20FormsWire(before)
 		startHist, startTmp := c20ReadFile(d.hist), c20ReadFile(d.tmp)
 		snaps, pmsg := c20Apply(d, h, op)
 		if pmsg != "" {
@@ -618,10 +641,7 @@ func c20RunHistoryCase(c *lib.Ctx, d c20Dir, cs c20Case, reply string, st *c20St
 		// the completed operation as the model sees it (for an X event the model's mem/load describe the
 		// world after the restart, so the completed operation is its last crash state)
 		expDone := e.Crash[len(e.Crash)-1]
-		expMem := e.Mem
-		if ev.Kind == "X" {
-			expMem = expDone.Load // memory and files agree after a completed operation (op_inv)
-		}
+		expMem := e.Omem
 		if afterW != expMem {
 			return problem(i, kind, "memory", c20Aspect(after, c20ParseForms(expMem), universe), "in memory "+c20ShowForms(after),
 				"in memory "+c20ShowForms(c20ParseForms(expMem)), "model:hist.run")
@@ -637,12 +657,23 @@ func c20RunHistoryCase(c *lib.Ctx, d c20Dir, cs c20Case, reply string, st *c20St
 				"a restart loads "+c20ShowForms(c20ParseForms(L))+" from history="+c20ShowContent(gotHist),
 				"loads "+c20ShowForms(c20ParseForms(expDone.Load)), "model:hist.run")
 		}
-		if L != afterW {
+		// The property itself: a restart gives back what is in memory. Sweep cells always check it (a
+		// failing cell is a listed finding or a violation). Composite sessions also contain forms outside
+		// the guard `storable`; there the model mirrors what Load does to them (trimmed, split at tabs),
+		// implementation and model were just compared, and the strict comparison is made whenever the
+		// model says memory and file agree.
+		if L != afterW && !knownHit && (cs.Cell != "" || expDone.Load == e.Omem) {
 			// model and implementation agree, but a restart does not give back what is in memory:
 			// the form is outside the guard of the encoding (SlipVerif.History.encode_decode_guard_exact)
-			return problem(i, kind, "final", c20Aspect(c20ParseForms(L), after, universe),
+			p := problem(i, kind, "final", c20Aspect(c20ParseForms(L), after, universe),
 				"a restart loads "+c20ShowForms(c20ParseForms(L))+" from history="+c20ShowContent(gotHist),
 				"what is in memory: "+c20ShowForms(after), "property: restart loads what is in memory (the model agrees with the implementation here: the input is outside the guard `storable` of encode_decode)")
+			if cs.Cell == "" || c.Findings.Match(c.Prop, p.sig) == nil || c.Replay != "" {
+				return p
+			}
+			// a listed finding: count it and go on comparing the rest of the cell with the model
+			c20Report(c, p, true)
+			knownHit = true
 		}
 		if c20Fnv(gotHist) != expDone.HistFnv || c20Fnv(gotTmp) != expDone.TmpFnv {
 			return &c20Problem{noInput: true, sig: fmt.Sprintf("fs-bytes op=%s step=final", kind), replay: map[string]any{"input": cs.show(), "request": req,
@@ -669,6 +700,9 @@ func c20RunHistoryCase(c *lib.Ctx, d c20Dir, cs c20Case, reply string, st *c20St
 			k := 0
 			var lastH, lastT *string = startHist, startTmp
 			lastLoaded := false
+			// what a restart loads from the files before and after the operation (for forms outside the
+			// guard this is the normalised history, not what is in memory)
+			loadStart, _ := c20LoadContent(d, startHist, limit)
 			for si, s := range snaps {
 				st.snapshots++
 				if s.After {
@@ -686,9 +720,10 @@ func c20RunHistoryCase(c *lib.Ctx, d c20Dir, cs c20Case, reply string, st *c20St
 				if lmsg != "" {
 					return problem(i, kind, step, "panic", "History.Load of the directory left at "+s.Point+" panicked: "+lmsg, "old or new history", "SlipVerif.History.crash_consistent")
 				}
-				ok := L == beforeW || L == afterW || (op.Kind == "C" && c20IsPrefix(L, afterW))
+				finalLoad := expDone.Load // == what the implementation loads after the operation (compared above)
+				ok := L == loadStart || L == finalLoad || (op.Kind == "C" && c20IsPrefix(L, finalLoad))
 				if !ok {
-					ref := append(append([]c20Form{}, before...), after...)
+					ref := append(append(c20ParseForms(loadStart), c20ParseForms(finalLoad)...), append(before, after...)...)
 					return problem(i, kind, step, c20Aspect(c20ParseForms(L), ref, universe),
 						fmt.Sprintf("a restart after a process death at %s (history=%s history.tmp=%s) loads %s", s.Point, c20ShowContent(s.Hist), c20ShowContent(s.Tmp), c20ShowForms(c20ParseForms(L))),
 						fmt.Sprintf("the old history %s, the new history %s or (Clear only) a prefix of the new one", c20ShowForms(before), c20ShowForms(after)),
@@ -797,8 +832,39 @@ func c20Classes() []c20Class {
 	}
 }
 
-func c20A(f c20Form) c20Op   { return c20Op{Kind: "A", Form: f} }
-func c20S(s ...string) c20Op { return c20Op{Kind: "A", Form: c20Form(s)} }
+// c20OutOfGuard: a form outside the guard: one of the fixed class forms or a random storable form
+// damaged in one of the ways the classes describe (blanks at the ends, a tab somewhere, an empty
+// first/last line).
+func c20OutOfGuard(r *lib.Rng, classes []c20Class) c20Form {
+	if r.Chance(35) {
+		return classes[r.Intn(len(classes))].form
+	}
+	f := append(c20Form{}, c20Storable(r)...)
+	last := len(f) - 1
+	switch r.Intn(7) {
+	case 0:
+		f[0] = r.Pick(c20Blanks) + f[0]
+	case 1:
+		f[last] += r.Pick(c20Blanks)
+	case 2:
+		i := r.Intn(len(f))
+		rs := []rune(f[i])
+		k := r.Intn(len(rs) + 1)
+		f[i] = string(rs[:k]) + "\t" + string(rs[k:])
+	case 3:
+		f = append(c20Form{""}, f...)
+	case 4:
+		f = append(f, "")
+	case 5:
+		f[r.Intn(len(f))] = "\t" + f[r.Intn(len(f))] // tab indentation
+	default:
+		f = append(f, "\t")
+	}
+	return f
+}
+
+func c20A(f c20Form) c20Op    { return c20Op{Kind: "A", Form: f} }
+func c20S(s ...string) c20Op  { return c20Op{Kind: "A", Form: c20Form(s)} }
 func c20Str(s string) *string { return &s }
 
 func c20Encode(fs []c20Form) string {
@@ -892,6 +958,32 @@ func c20Sweep(c *lib.Ctx) []c20Case {
 			c20Case{Cell: fmt.Sprintf("crash/clear-recent-%d", k), Limit: 9, Events: append([]c20Op{c20A(plain(0)), c20A(plain(1)), c20A(plain(2)), c20A(plain(3)), x(c20Op{Kind: "C", A: 0, B: 0}, 3)}, tail...)},
 		)
 	}
+	// a compaction at a three digit limit (max = 110)
+	{
+		var evs []c20Op
+		for i := 0; i < 225; i++ {
+			evs = append(evs, c20A(plain(i)))
+		}
+		cases = append(cases, c20Case{Cell: "limit/100", Limit: 100, Events: append(evs, c20Op{Kind: "R", N: 100})})
+	}
+	// LineReader reads 4096 bytes at a time: a newline, a tab and a multi-byte character exactly at, before
+	// and after the end of the first and second buffer
+	for _, off := range []int{4094, 4095, 4096, 4097, 8191, 8192, 8193} {
+		for _, kind := range []string{"nl", "tab", "rune"} {
+			var first string
+			switch kind {
+			case "nl": // the newline of the first line is byte number off
+				first = strings.Repeat("x", off-1) + "\n"
+			case "tab":
+				first = strings.Repeat("x", off-1) + "\t(y)\n"
+			default: // the second byte of é is byte number off
+				first = strings.Repeat("x", off-2) + "é z\n"
+			}
+			content := first + "(second é)\n(third\t 3)\n"
+			cases = append(cases, c20Case{Cell: fmt.Sprintf("linereader/%s-at-%d", kind, off), Limit: 10, Hist0: &content,
+				Events: []c20Op{{Kind: "R", N: 10}, c20A(plain(0)), {Kind: "R", N: 10}}})
+		}
+	}
 	// more than one LineReader buffer (4096 bytes) of history
 	var long []c20Op
 	for i := 0; i < 340; i++ {
@@ -916,8 +1008,8 @@ func c20Composite(c *lib.Ctx, r *lib.Rng, classes []c20Class) c20Case {
 	pool := make([]c20Form, 4+r.Intn(8))
 	for i := range pool {
 		pool[i] = c20Storable(r)
-		if len(classes) > 0 && r.Chance(12) {
-			pool[i] = classes[r.Intn(len(classes))].form
+		if len(classes) > 0 && r.Chance(14) {
+			pool[i] = c20OutOfGuard(r, classes)
 		}
 	}
 	form := func() c20Form {
@@ -937,6 +1029,9 @@ func c20Composite(c *lib.Ctx, r *lib.Rng, classes []c20Class) c20Case {
 		s := c20Encode(fs)
 		if r.Chance(30) {
 			s = "\n" + s + " \n"
+		}
+		if r.Chance(10) {
+			s += "(tail without newline" // hand edited: the next Add glues onto it (mirrored by the model)
 		}
 		cs.Hist0 = &s
 	}
@@ -1144,12 +1239,17 @@ func c20Flush(c *lib.Ctx) {
 }
 
 func c20Emit(c *lib.Ctx, p *c20Problem, sweep bool) {
+	if p.vsModel {
+		sweep = false // only a failure of the property itself in a sweep cell can be a listed finding
+	}
 	// at most three replays per sweep family (cell=clear/…, cell=limit/…): the first 25 violations get
 	// replay files and one defect should not use them all up; the others are counted
 	if strings.HasPrefix(p.sig, "cell=") && !p.noInput && (!sweep || c.Findings.Match(c.Prop, p.sig) == nil) {
 		fam := p.sig[:strings.IndexAny(p.sig+"/", "/")]
 		c20Family[fam]++
-		if c20Family[fam] > 3 {
+		// (grids only: in the form/, stash/ and init/ families every cell is a construct of its own)
+		grid := map[string]bool{"cell=clear": true, "cell=limit": true, "cell=crash": true, "cell=stash-clear": true, "cell=setq": true, "cell=setq-with": true}
+		if grid[fam] && c20Family[fam] > 3 {
 			c.Ev.Count("violations_not_reported_same_sweep_family", 1)
 			return
 		}
@@ -1189,13 +1289,10 @@ func runC20(c *lib.Ctx) {
 	// well-mixed function of VERIF_SEED instead of c.Rng
 	c20Rng = lib.NewRng(c20Mix(c.Seed))
 
-	// which form classes outside the guard may composite cases use (none that a known finding lists)
-	var free []c20Class
-	for _, cl := range c20Classes() {
-		if !c.Findings.Listed("C20", "cell=form/"+cl.name+" ") {
-			free = append(free, cl)
-		}
-	}
+	// Composite sessions use every form class, inside and outside the guard of the encoding: the model
+	// mirrors what Load does to the forms outside it (each class is also a sweep cell whose failure of
+	// the property itself is a listed finding), so everything the implementation does today is compared.
+	free := c20Classes()
 	cases := c20Sweep(c)
 	nSweep := len(cases)
 	nRandom := c.Scale(260, 3000)
